@@ -260,6 +260,12 @@ func ConstBool(v ssa.Value) (bool, bool) {
 // the If instructions that test it. go/ssa lowers !, && and || in conditions to
 // branch structure, so each If tests an atomic condition.
 func CondEdges(v ssa.Value) (tr, fa []Edge) {
+	return condEdges(v, map[ssa.Value]bool{v: true})
+}
+
+// condEdges: stack holds the phis being resolved (a loop-carried flag and the
+// and/or-shaped phi that updates it refer to each other).
+func condEdges(v ssa.Value, stack map[ssa.Value]bool) (tr, fa []Edge) {
 	seen := map[ssa.Value]bool{}
 	var walk func(v ssa.Value, neg bool)
 	walk = func(v ssa.Value, neg bool) {
@@ -306,7 +312,12 @@ func CondEdges(v ssa.Value) (tr, fa []Edge) {
 				if allFalse == allTrue {
 					continue // no constants at all, or mixed
 				}
-				pt, pf := CondEdges(r)
+				if stack[r] {
+					continue
+				}
+				stack[r] = true
+				pt, pf := condEdges(r, stack)
+				delete(stack, r)
 				// r true => v (possibly negated) ... with neg: v is !orig
 				if allFalse { // and-shape: r true => v true
 					if neg {
